@@ -65,6 +65,9 @@ ENGINES["rangec"] = dict(drv="range", starts=("rsetup",), trivial=r"$^", branche
 ENGINES["prefixc"] = dict(drv="prefix", starts=("psetup",), trivial=r"$^", branches=["batch"], noshrink=True)
 ENGINES["dispatch4c"] = dict(drv="dispatch4", starts=(), trivial=r"=> U ; drop ; inv -$", branches=[])
 
+ENGINES["config"] = dict(drv="config", starts=(), trivial=r"=> unreadable ; err$",
+    branches=["cload.ok", "cload.err", "cload.dual", "cload.plugins-nil", "cload.bad-item", "cload.iface", "cload.iface+listen", "cload.listen", "cload.default-listen", "cload.zoned", "cload.unreadable"])
+
 TB_BITSET = "github.com/bits-and-blooms/bitset (New/Test/Set/Clear/NextClear) modelled as List Bool, not verified"
 TB_STD = "Go stdlib net/bytes/encoding/binary/math/bits taken at their documented Nat-level meaning"
 
@@ -77,6 +80,15 @@ TB_CODEC = "insomniacslk/dhcp: FromBytes/ToBytes and the reply constructors are 
 TB_HOOK = "server capture hook (build tag verif): the real HandleMsg4/6 runs; the reply is captured instead of written to a socket"
 
 PROPS = {
+    "C18": dict(
+        engines=[("config", 3000, 60000)],
+        theorems=["C18_holds", "C18_plugin_list_exact", "C18_rejects_bad_plugins", "C18_rejects_listen_and_interface", "C18_address_form", "C18_rejects_bad_address", "C18_needs_a_protocol"],
+        modules=["CoreDhcp.Props.C18"],
+        trusted_base=["yaml.v3, viper, cast: the model starts from what viper.Get / cast.To* return for the keys the code asks for (recorded per document by the harness)",
+                      "net.SplitHostPort, net.ParseIP, strconv.Atoi, strings.Fields, net.Interfaces: oracle answers recorded by the harness"],
+        assumptions=["'no configuration text makes loading panic' covers the repository's code on every parsed tree; the YAML/viper/cast text layer is only exercised (generated and mutated documents under recover)",
+                     "plugin names reach the loader lower-cased by viper"],
+    ),
     "C01": dict(
         engines=[("chain", 2500, 60000), ("dispatch4", 3000, 60000), ("dispatch6", 3000, 60000), ("prefix", 1500, 30000)],
         theorems=["C01_dispatch4", "C01_dispatch6", "C01_range_never_panics", "C01_alloc6_never_bug", "C01_alloc4_never_panics", "C01_chain_bounded"],
